@@ -29,13 +29,47 @@ Json gen(sim::Rng& rng, int tier)
     for (int i = 0; i < nc; ++i) {
         Json c = Json::object();
         int k = static_cast<int>(rng.below(10));
-        c["kind"] = k < 6 ? "tmoasync" : k < 9 ? "async" : "size";
+        // "async-gone": the client leaves before the application thread replies; the reply is queued for the loop thread and
+        // dropped there (the peer is gone) - whatever is queued behind it still has to be written
+        c["kind"] = k < 5 ? "tmoasync" : k < 7 ? "async" : k < 9 ? "async-gone" : "size";
         c["ms"] = static_cast<int>(20 + rng.below(400));
         c["size"] = static_cast<int>(rng.below(3000));
         c["tag"] = static_cast<long long>(tag += 10);
         c["start_us"] = rng.chance(0.6) ? 0 : static_cast<int>(rng.below(2000));
         c["latency_us"] = static_cast<int>(5 + rng.below(200));
+        // async-gone: the moment of leaving, somewhere around the moment the application thread replies
+        c["leave_us"] = static_cast<int>(rng.below(static_cast<sim::u64>(p.num("app_gather_us", 0) + p.num("app_delay_us", 0) + 700)));
         conns.push(c);
+    }
+    // a fifth of the runs: one worker that is busy in a slow handler while the application thread replies to a client that
+    // has left meanwhile - the loop thread comes back to find the disconnection ahead of the queue's notification, drops
+    // that reply, and must still write what is queued behind it (the slow handler's own reply)
+    if (rng.chance(0.2)) {
+        p["workers"] = 1;
+        p["app_gather_us"] = 0;
+        int R = static_cast<int>(400 + rng.below(1500));
+        p["app_delay_us"] = R;
+        Json c2 = Json::array();
+        Json a = Json::object();
+        a["kind"] = "async-gone";
+        a["ms"] = static_cast<int>(rng.below(2));
+        a["size"] = static_cast<int>(rng.below(2000));
+        a["tag"] = static_cast<long long>(tag += 10);
+        a["start_us"] = 0;
+        a["latency_us"] = 20;
+        int bstart = static_cast<int>(60 + rng.below(150));
+        a["leave_us"] = bstart + 100 + static_cast<int>(rng.below(static_cast<sim::u64>(std::max(1, R - bstart - 150))));
+        c2.push(a);
+        Json b = Json::object();
+        b["kind"] = "busy";
+        b["ms"] = 0;
+        b["size"] = R + static_cast<int>(500 + rng.below(2000)); // busy time in microseconds
+        b["tag"] = static_cast<long long>(tag += 10);
+        b["start_us"] = bstart;
+        b["latency_us"] = 20;
+        c2.push(b);
+        for (size_t i = 0; i + 2 < conns.size() && i < 2; ++i) c2.push(conns.at(i));
+        conns = c2;
     }
     p["conns"] = conns;
     gen_sched(rng, p, 3000, false);
@@ -66,14 +100,28 @@ void run(const Json& plan)
         wt.ms = std::max<i64>(1, std::min<i64>(c.num("ms", 100), 5000));
         size_t size = static_cast<size_t>(std::max<i64>(0, std::min<i64>(c.num("size", 100), 20000)));
         if (wt.kind == "tmoasync") wt.target = "/tmoasync/" + std::to_string(wt.ms) + "/" + std::to_string(tag);
+        else if (wt.kind == "async-gone") wt.target = "/async/" + std::to_string(size) + "/" + std::to_string(tag);
+        else if (wt.kind == "busy") {
+            wt.ms = std::max<i64>(1, std::min<i64>(c.num("size", 1000), 20000)) / 1000 + 1;
+            wt.target = "/busy/" + std::to_string(std::max<i64>(1, std::min<i64>(c.num("size", 1000), 20000))) + "/" + std::to_string(tag);
+            wt.body = "busy " + std::to_string(tag);
+        }
         else {
             if (wt.kind != "async") wt.kind = "size";
             wt.target = "/" + wt.kind + "/" + std::to_string(size) + "/" + std::to_string(tag);
             wt.body = actors::pattern(tag, size);
         }
         wants.push_back(wt);
-        std::vector<Step> st { httpw::step(Step::Connect), httpw::send_step(actors::http_request("GET", wt.target, { { "Host", "sim" }, { "Connection", "keep-alive" } }, "")),
-                               httpw::step(Step::Await, (wt.ms + 3000) * 1000000LL, 1), httpw::step(Step::Close) };
+        std::vector<Step> st { httpw::step(Step::Connect), httpw::send_step(actors::http_request("GET", wt.target, { { "Host", "sim" }, { "Connection", "keep-alive" } }, "")) };
+        if (wt.kind == "async-gone") {
+            // gone at about the moment the application thread replies: the reply is queued while the peer is still known, and
+            // the loop thread learns of the disconnection before it gets to the queue
+            st.push_back(httpw::step(Step::Pause, std::max<i64>(1, c.num("leave_us", 100)) * 1000));
+            st.push_back(httpw::step(c.num("ms", 0) % 2 ? Step::Abort : Step::Close));
+        } else {
+            st.push_back(httpw::step(Step::Await, (wt.ms + 3000) * 1000000LL, 1));
+            st.push_back(httpw::step(Step::Close));
+        }
         auto cl = std::make_shared<actors::Client>(static_cast<int>(i), port, st);
         cl->custom_net = true;
         cl->to_server.latency_ns = cl->from_server.latency_ns = std::max<i64>(1, c.num("latency_us", 50)) * 1000;
@@ -88,11 +136,15 @@ void run(const Json& plan)
     scen::wait_for(all_done, 30LL * 1000000000LL, "driver.wait-clients");
 
     const i64 margin = 150 * 1000000LL;
+    i64 busy_total_ns = 0;
+    for (auto& wt : wants)
+        if (wt.kind == "busy") busy_total_ns += wt.ms * 1000000LL;
     for (size_t i = 0; i < clients.size(); ++i) {
         auto& cl = clients[i];
         const Want& wt = wants[i];
         std::string who = "connection " + std::to_string(i) + " (" + wt.target + ")";
         r.probe("kind-" + wt.kind);
+        if (wt.kind == "async-gone") continue;
         if (!cl->st.connected) {
             r.violation("C13.transport:connection-not-served", who + " was never accepted");
             continue;
@@ -109,13 +161,13 @@ void run(const Json& plan)
                 const auto& resp = cl->reader.done[0];
                 if (resp.status != 408) r.violation("C13.transport:wrong-status", who + " was answered " + std::to_string(resp.status) + " instead of the 408 of the time-out handler");
                 i64 took = resp.done_at - sent;
-                if (took > wt.ms * 1000000LL + (o.app_delay_ns + o.app_gather_ns) * static_cast<i64>(clients.size()) + margin)
+                if (took > wt.ms * 1000000LL + (o.app_delay_ns + o.app_gather_ns) * static_cast<i64>(clients.size()) + busy_total_ns + margin)
                     r.violation("C13.wakeup:armed-time-out-fired-late", who + ": the time-out of " + std::to_string(wt.ms) + " ms fired " + std::to_string(took / 1000000) + " ms after the request (its item stayed queued until something else woke the loop)");
             }
         } else {
             if (cl->responses() == 0) r.violation("C13.wakeup:reply-never-written", who + ": the reply never arrived (the write queued for the loop thread was left behind)");
             else if (cl->reader.done[0].status != 200 || cl->reader.done[0].body != wt.body) r.violation("C13.transport:wrong-answer", who + " was answered " + std::to_string(cl->reader.done[0].status) + " with a body of " + std::to_string(cl->reader.done[0].body.size()) + " bytes");
-            else if (cl->reader.done[0].done_at - sent > (o.app_delay_ns + o.app_gather_ns) * static_cast<i64>(clients.size()) + margin)
+            else if (cl->reader.done[0].done_at - sent > (o.app_delay_ns + o.app_gather_ns) * static_cast<i64>(clients.size()) + busy_total_ns + margin)
                 r.violation("C13.wakeup:reply-written-late", who + ": the reply arrived " + std::to_string((cl->reader.done[0].done_at - sent) / 1000000) + " ms after the request");
         }
     }
